@@ -94,7 +94,7 @@ var reInclude = regexp.MustCompile(`\{% (include|extends|import|from) '([a-z0-9/
 
 func (propC17) Gen(seed uint64, ex map[string]bool) interface{} {
 	r := newR(seed)
-	f := Feat{Spies: true, SpyPct: 35, MapLoops: false, Include: r.P(70), Inherit: r.P(50), Macros: r.P(60), Dashes: false, Sandbox: true, RelPaths: r.P(40)}
+	f := Feat{Spies: true, SpyPct: 35, MapLoops: false, Include: r.P(70), Inherit: r.P(50), Macros: r.P(60), Dashes: false, Sandbox: true, RelPaths: r.P(40), MacroFiltered: true}
 	if ex["macro-text-interpolation"] {
 		f.Macros = false
 	}
